@@ -126,9 +126,11 @@ EvalRhsP(k, yv, b, roll) ==
 -----------------------------------------------------------------------------
 (* adaptive solvers: P is not modelled (step-size control is outside a discrete model); M is the exact solution
    of the polynomial chain models  x1' = c1,  x2' = c2 + w*x1  (closed form, integer at integer times) *)
-ChainSol(m, t) == LET w == IF m.edges = <<>> THEN 0 ELSE m.edges[1].w IN
-                  <<m.x0[1] + m.c[1] * t,
-                    m.x0[2] + m.c[2] * t + w * m.x0[1] * t + (w * m.c[1] * t * t) \div 2>>
+ChainSol(m, t) == LET w == IF m.edges = <<>> THEN 0 ELSE m.edges[1].w
+                      lag == IF m.edges = <<>> THEN 0 ELSE m.edges[1].lag     \* delayed edge: x1(t - lag), = x1(0) before the start
+                      td == IF t > lag THEN t - lag ELSE 0
+                  IN <<m.x0[1] + m.c[1] * t,
+                       m.x0[2] + m.c[2] * t + w * m.x0[1] * t + (w * m.c[1] * td * td) \div 2>>
 ExactRows(cs) == [r \in 1..(cs.cfg.steps \div cs.cfg.store) |-> ChainSol(cs.m, (r - 1) * cs.cfg.store)]
 
 InitCase(cs) ==
